@@ -478,13 +478,13 @@ def mapping_before_use(ctx):
 
 
 
-def _local_map_keys_agree(ctx):
+def _local_map_keys_agree(ctx, rid="R13.6"):
     """R13.6: "types with equal TRUE NAME are identified".  merge_from decides identity through a local name -> index map
     of the types already loaded.  The accessor whose result keys the map when it is filled must be the accessor whose
     result is looked up - and it must be the true name (the scoped name drops the scope of template arguments:
     `util::Handle< Token >` vs `util::Handle< util::Token >`).  (Seed S6-C13.)"""
     db = ctx.db
-    ctx.rule("R13.6", "in merge_from every key stored into or looked up in the local name->index map of loaded types is `<type>.get_true_name()`")
+    ctx.rule(rid, "in merge_from every key stored into or looked up in the local name->index map of loaded types is `<type>.get_true_name()`")
     f = db.fn("InterrogateDatabase::merge_from")
     maps = {}
     for x in f.walk():
@@ -517,5 +517,5 @@ def _local_map_keys_agree(ctx):
             k = strip_casts(peel(k["a"][0]))
         acc = callee_short(k) if k is not None and k.get("k") == "call" else None
         ok = acc == "get_true_name"
-        ctx.ob("R13.6", "merge_from|%s.%s|key-is-true-name#%d" % (maps[r["d"]], cs, n), ok, f.loc(c), "`%s` keys the map with %s" % (show(c)[:60], (acc + "()") if acc else show(key)[:30]))
-    ctx.floor("R13.6", "accesses to the local name->index map in merge_from", n, 2)
+        ctx.ob(rid, "merge_from|%s.%s|key-is-true-name#%d" % (maps[r["d"]], cs, n), ok, f.loc(c), "`%s` keys the map with %s" % (show(c)[:60], (acc + "()") if acc else show(key)[:30]))
+    ctx.floor(rid, "accesses to the local name->index map in merge_from", n, 2)
